@@ -493,7 +493,9 @@ class SoftMax:
         name = f"{self.op.name}_mul{pass_number}"
         beta = self.op.attrs.get("beta", 1.0)
         mul2_out_range = 10.0 / 65535.0
-        mul2_scale, _ = scaling.elementwise_mul_scale(sub1_ofm.quantization.scale_f32, beta, mul2_out_range)
+        # As the reference: float32 product of input scale and beta, division in double (NumPy >= 2 would divide in float32)
+        input_scale_beta = np.double(np.float32(sub1_ofm.quantization.scale_f32) * np.float32(beta))
+        mul2_scale, _ = scaling.elementwise_mul_scale(input_scale_beta, 1.0, mul2_out_range)
         scale_quant = ifm.quantization.clone()
         scale_quant.scale_f32 = beta
         mul2_quant = ofm.quantization.clone()
